@@ -2,8 +2,12 @@
    (case ID DAYBREAK NOW (EV ...))   EV = (i T DONE ACCT DESC) | (o T DONE ACCT DESC)
    T, NOW: seconds since 1970-01-01 00:00:00; DONE: 1 for a capital I/O; ACCT: `none` (NULL),
    `-` (the empty name) or hex bytes; DESC: `-` or hex bytes.
-   -> "ID R day|acct|secs|payee|code|cleared|in|out;..."     the register rows, in journal order
-    | "ID E idx:Class,...;close:Class|-"                      failing event indices (from 0) *)
+   ACCT is the RESOLVED full account name (master account, enclosing `apply account` blocks and the
+   written name joined by `:`), for check-ins and check-outs alike; one case = one file instance
+   (an included file is a case of its own: it has its own time_log_t).
+   -> "ID R idx|day|acct|secs|payee|code|cleared|in|out;..."  the rows, in journal order; idx = index of
+                                                               the event that made the row, n = the close
+    | "ID E idx:Class,...;close:Class|-"                       failing event indices (from 0) *)
 let cls = function
   | TNoCheckin -> "NoCheckin" | TNeedAccount -> "NeedAccount" | TNoMatch -> "NoMatch"
   | TNegative -> "Negative" | TDouble -> "Double" | TFuel -> "Fuel"
@@ -27,8 +31,19 @@ let show_post p =
 let handle line =
   match parse_sexp line with
   | L [A "case"; A id; db; now; L evs] ->
-    (match journal (batom db) (zatom now) (List.map ev_of evs) with
-     | Report ps -> [id ^ " R " ^ String.concat ";" (List.map show_post ps)]
+    let events = List.map ev_of evs in
+    (match journal (batom db) (zatom now) events with
+     | Report ps ->
+       (* the same rows, with the index of the event that produced each (run + close are what
+          `journal` is made of; the concatenation must be the report) *)
+       let (opn, ocs) = run (batom db) [] events in
+       let tagged = List.concat (List.mapi (fun i oc -> match oc with
+           | Posted l -> List.map (fun p -> (i, p)) l | Failed _ -> []) ocs) in
+       let n = List.length events in
+       let closing = (match close (batom db) (zatom now) opn with Inl l -> List.map (fun p -> (n, p)) l | Inr _ -> []) in
+       let all = tagged @ closing in
+       if List.map snd all <> ps then failwith "driver: run/close rows differ from journal";
+       [id ^ " R " ^ String.concat ";" (List.map (fun (i, p) -> string_of_int i ^ "|" ^ show_post p) all)]
      | Errors (ls, c) ->
        [id ^ " E " ^ String.concat "," (List.map (fun (n, e) -> string_of_z n ^ ":" ^ cls e) ls)
         ^ ";close:" ^ (match c with None -> "-" | Some e -> cls e)])
